@@ -75,7 +75,9 @@ LASTS = {"float": [2, 3, 4, 5, 6, 8, 12, 16, 20], "double": [2, 3, 4, 5, 6, 8, 1
 def real_cells(tier):
     if tier == "quick":
         return [("sse2", "c++14", None), ("avx2", "c++17", -1), ("avx512", "c++14", 1), ("avx2", "c++14", None), ("sse2", "c++17", -1), ("avx512", "c++17", None)]
-    return [(isa, std, co) for isa in ("scalar", "sse2", "avx2", "avx512") for std in ("c++14", "c++17") for co in (None, 1, -1)] + \
+    # CONTRACT_OPT=1/-1 together with FASTOR_DONT_VECTORISE (the "scalar" flag set) does not compile in the library (two tuning macros at once:
+    # outside the one-at-a-time quantification of the properties; noted in DESIGN.md 10.5), so the scalar flag set runs the default loop nest only
+    return [(isa, std, co) for isa in ("scalar", "sse2", "avx2", "avx512") for std in ("c++14", "c++17") for co in (None, 1, -1) if not (isa == "scalar" and co is not None)] + \
            [(isa, "c++14", None) for isa in ("sse42", "avx")]
 
 def real_groups(tier, seed):
